@@ -364,7 +364,7 @@ def check_C08(tier, replay=None):
         runs = [("MC_C08_d3", {"MaxDepth": "3", "Kinds": "<- AllKinds"}), ("MC_C08_d2x", {"MaxDepth": "2", "Kinds": "<- AllKindsX"})]
     std_flow(R, "MC_C08", runs, "Trace_Out", {"P": '"C08"'}, MEMBER_DEVS, ["Agreement", "BasePrefix", "Emit"])
     # the look-up state machine itself (spec/Lookup.tla): every way up to four declared components refer to each other
-    lk_inv = ["TypeOK", "NoStandInIfValid", "AllComplete", "ResolvingExact", "PushedOnce", "BoundedWork"]
+    lk_inv = ["TypeOK", "NoStandInIfValid", "AllComplete", "ResolvingExact", "PushedOnce", "BoundedWork", "FinalExact"]
     lk_runs = [("MC_Lookup_4x1", {"Comp": '{"c1","c2","c3","c4","k1"}', "Declared3": "<- Order4", "MaxRefs": "1", "Wide": "FALSE" if tier == "quick" else "TRUE"})]
     if tier != "quick":
         lk_runs.append(("MC_Lookup_3x2", {"Comp": '{"c1","c2","c3","k1"}', "Declared3": "<- Order3", "MaxRefs": "2", "Wide": "FALSE"}))
